@@ -73,6 +73,14 @@ var c15Fails = []c15Fail{
 	{"multiline-unknown", "<%=\n nope\n %>", false, true, 0},
 	{"multiline-type-error", "<%= 1 +\n \"a\"\n %>", false, true, 0},
 	{"unterminated-string", "<%= foo(\"abc\ndef) %>\nmore", true, true, 0},
+	// the failure is in the header of a statement whose block runs over several tags and lines
+	{"silent-if-condition-over-lines", "<% if (1 + \"a\" == 1) { %>\n x\n<% } %>", false, true, 1},
+	{"if-condition-over-lines", "<%= if (1 + \"a\" == 1) { %>\n x\n<% } else { %>\n y\n<% } %>", false, true, 1},
+	{"silent-for-not-iterable-over-lines", "<% for (v) in 5 { %>\n x\n<% } %>", false, true, 1},
+	{"silent-failing-block-helper-over-lines", "<% failb() { %>\n x\n<% } %>", false, true, 1},
+	{"failing-block-helper-over-lines", "<%= failb() { %>\n x\n\n<% } %>", false, true, 1},
+	{"silent-let-of-failing-block-helper", "<% let q = failb() { %>\n x\n<% } %>", false, true, 1},
+	{"silent-multiline-call", "<% fail2(\n 1\n) %>", false, true, 0},
 }
 
 var c15Wraps = []struct{ name, pre, post string }{
@@ -93,6 +101,7 @@ func c15Context() *plush.Context {
 	c.Set("x", 1)
 	c.Set("fail", func() (string, error) { return "", ErrSentinel })
 	c.Set("fail2", func(i int) (string, error) { return "", ErrSentinel })
+	c.Set("failb", func(help plush.HelperContext) (string, error) { return "", ErrSentinel })
 	c.Set("blk", func(help plush.HelperContext) (template.HTML, error) {
 		s, err := help.Block()
 		return template.HTML(s), err
@@ -118,7 +127,7 @@ func init() {
 			return s
 		},
 		Run:  c15Run,
-		Rule: "templates = every sequence of <=3 (4 thorough) preceding items from 14 (text lines, CRLF, single/multi-line tags, # comment lines, multi-line double- and back-quoted strings, multi-line comment tag, output tag, if/for blocks spanning lines, escaped tag) followed by one failing statement of 34 kinds (10 runtime faults, 14 syntax-error families incl. un-parsable numbers, break outside a loop and argument lists cut by the closing tag, tokens directly followed by a newline, failures after a multi-line user function was called in the same statement, 2 multi-line failing tags, unterminated string at EOF) at top level or inside if / else / for / fn (called later) / helper block / for+if bodies, followed by trailing text; then shifted by k in {1,2,3} leading newlines. Oracle: (i) error starts with 'line N:'; (ii) N is the 1-based line on which the failing tag begins (within the tag's lines when it spans several / within the string's lines for an unterminated string); (iii) the shifted template's error equals the original with every 'line n:' replaced by 'line n+k:'. Non-trivial: at least one newline precedes the failing tag.",
+		Rule: "templates = every sequence of <=3 (4 thorough) preceding items from 14 (text lines, CRLF, single/multi-line tags, # comment lines, multi-line double- and back-quoted strings, multi-line comment tag, output tag, if/for blocks spanning lines, escaped tag) followed by one failing statement of 41 kinds (10 runtime faults, 14 syntax-error families incl. un-parsable numbers, break outside a loop and argument lists cut by the closing tag, tokens directly followed by a newline, failures after a multi-line user function was called in the same statement, 2 multi-line failing tags, failures in the header of a statement whose block spans several tags and lines (if condition, non-iterable for, failing block helper - silent and emitting), unterminated string at EOF) at top level or inside if / else / for / fn (called later) / helper block / for+if bodies, followed by trailing text; then shifted by k in {1,2,3} leading newlines. Oracle: (i) error starts with 'line N:'; (ii) N is the 1-based line on which the failing tag begins (within the tag's lines when it spans several / within the string's lines for an unterminated string); (iii) the shifted template's error equals the original with every 'line n:' replaced by 'line n+k:'. Non-trivial: at least one newline precedes the failing tag.",
 		Bound: func(th bool) string {
 			if th {
 				return "<=4 preceding items, 7 placements, shifts 1..3"
